@@ -31,7 +31,8 @@ Definition tol_arg : Q := pow2 (-40).      (* exp / erf argument computed in dou
 Definition tol_geo : Q := pow2 (-48).      (* segment offsets / heights, wavelengths, delta: one or two roundings *)
 Definition tol_pow : Q := pow2 (-34).      (* Gaussian bin power, absolute (erf argument error up to 2^-36) *)
 Definition tol_key : Q := 1 # 16777216.    (* erf table lookup: 2^-24 absolute; the harness drops cases whose
-                                              neighbouring erf arguments are closer than 2^-10 *)
+                                              neighbouring erf arguments are closer than 2^-10 (+ 2^-30 relative); for huge
+                                              arguments (tiny stddev) the key is matched to 2^-40 relative *)
 
 Definition sqrt_ok (s v : Q) : bool := Qle_bool 0 s && close tol_geo 0 (s * s) v.
 
@@ -93,12 +94,15 @@ Definition check_profile (c pi s2pi3 : Q) (k : pkind) (a : pargs) (ops : list po
 (* ------------------------------------------------------------------------------------------ *)
 Definition sentinel : Q := 1000.
 
-Fixpoint erf_lookup_red (tbl : list (Q * Q)) (a : Q) : Q :=
+(* [slack]: the implementation's argument (edge - mean) * norm_cdf carries the rounding of the edge (about one ulp
+   of the wavelength) times norm_cdf; the harness hands over 2^-44 * max_wavelength * norm_cdf and drops cases whose
+   neighbouring arguments are closer than 2^-10 + 4 slack *)
+Fixpoint erf_lookup_red (slack : Q) (tbl : list (Q * Q)) (a : Q) : Q :=
   match tbl with
   | [] => sentinel
-  | (k, v) :: t => if Qle_bool (Qabs (k - a)) tol_key then v else erf_lookup_red t a
+  | (k, v) :: t => if Qle_bool (Qabs (k - a)) slack then v else erf_lookup_red slack t a
   end.
-Definition erf_lookup (tbl : list (Q * Q)) (a : Q) : Q := erf_lookup_red tbl (Qred a).
+Definition erf_lookup (slack : Q) (tbl : list (Q * Q)) (a : Q) : Q := erf_lookup_red (tol_key + slack) tbl (Qred a).
 
 (* ConstantSpectrum: bin power = overlap / (max - min).  The implementation accumulates the bin edges in
    doubles (error about one ulp of the wavelength per edge); where an outer bin is clipped to [min, max]
@@ -125,8 +129,8 @@ Definition check_seval (erf : Q -> Q) (sqrt2 sqrt2pi : Q) (s : sstate) (e : seva
    deltas = [delta_wavelength; get_delta_wavelength()] *)
 Definition check_spectrum (pi sqrt2 sqrt2pi : Q) (k : skind) (a : sargs) (ops : list sop)
     (ctor_ok : bool) (rs : list Z) (rep : list Q) (zrep : list Z) (deltas : list Q)
-    (tbl : list (Q * Q)) (wl psd : list Q) (evals : list seval) : Z :=
-  let erf := erf_lookup tbl in
+    (slack : Q) (tbl : list (Q * Q)) (wl psd : list Q) (evals : list seval) : Z :=
+  let erf := erf_lookup slack tbl in
   match sconstruct erf sqrt2 sqrt2pi k a with
   | None => if ctor_ok then 1%Z else 0%Z
   | Some s0 =>
